@@ -12,6 +12,7 @@ base = json.load(open("/root/.vp/BASELINE.json"))
 env = dict(os.environ)
 env.pop("BOB_LEARN_EM_VERIF", None)
 with tempfile.TemporaryDirectory() as d:
+    env["COVERAGE_FILE"] = os.path.join(d, "coverage")      # /repo/.coverage is a tracked file: leave it alone
     x = os.path.join(d, "junit.xml")
     cmd = base["cmd"].replace("<file>", x)
     p = subprocess.run(cmd, shell=True, env=env, capture_output=True, text=True)
